@@ -45,7 +45,7 @@ LEMMAS = {}
 UNVERIFIED = {"C22": [
     "that the fixed program behaves the same (needs the language semantics); reaching a fixed point of repeated --fix",
     "the spans produced by the other lints (unnecessary let, unused vars, ...): only the unused-literal span is under contract",
-    "apply_fixes' precondition (fix spans in range, on char boundaries, pairwise disjoint) is pushed to the producers of the fixes and not checked there",
+    "apply_fixes' precondition (fix spans in range and on char boundaries) is pushed to the producers of the fixes and not checked there; overlapping fixes are no longer a precondition (apply_fixes skips them)",
 ]}
 
 GLUE = """
@@ -127,6 +127,12 @@ pub fn vvfs_file_src<'a>(v: &'a Visitor, p: &VfsPathBuf) -> (r: Option<&'a Strin
 { unimplemented!() }
 """
 
+import json as _json
+CORPUS = _json.load(open(os.path.join(HERE, "corpus.json")))
+BOUNDED = [
+    {"name": "fix_preserves", "kind": "fix-corpus", "props": ["C22"], "input": CORPUS, "n_inputs": len(CORPUS) + 16,
+     "bound": "%d listed programs (every fixable lint, shadowed and repeated lets, nested and mixed boolean chains, several lints at once) plus the repository's 16 check_fix fixtures: --fix to a fixed point within 5 rounds, the result checks cleanly, prints the same output and ends with the same status" % len(CORPUS)},
+]
 WITNESSES = [
     {"match": r"get_line_position", "kind": "check-fix", "props": ["C22"],
      "input": "fun f() {\n  1 println(\"hi\")\n  2\n}\n\nf()\n",
@@ -157,19 +163,14 @@ def build(tier):
                   "vf_concat3(vS_slice(&result, 0, start), &fix.new_text, vS_slice_from(&result, end))"),
         "R4b",
     ]
-    u.add_fn(SC, "apply_fixes", rules=AF_RULES, contract=Contract(
-        requires=[("spans_in_source", "forall|i: int| 0 <= i < fixes@.len() ==> fix_in(src, #[trigger] fixes@[i])"),
-                  ("spans_disjoint", "disjoint(fixes@)")],
+    u.add_fn(SC, "apply_fixes", rules=AF_RULES + [rw.simple("R2", r"\bsrc\.len\(\)", "vs_len(src)")], contract=Contract(
+        # no disjointness precondition: ANY list of in-range fixes is applied without a panic,
+        # because a fix that overlaps one already applied is skipped
+        requires=[("spans_in_source", "forall|i: int| 0 <= i < fixes@.len() ==> fix_in(src, #[trigger] fixes@[i])")],
         loops={1: dict(invariant=[
             ("todo_ok", "forall|i: int| 0 <= i < it_rest(&__it1).len() ==> fix_in(src, #[trigger] it_rest(&__it1)[i])"),
-            ("todo_sorted", "sorted_desc(it_rest(&__it1)), disjoint(it_rest(&__it1))"),
-            ("prefix_intact", "0 <= lim <= blen(src), lim <= blen(sv(&result)), forall|k: int| 0 <= k <= lim ==> (#[trigger] is_cb(sv(&result), k) <==> is_cb(src, k))"),
-            ("todo_below", "forall|i: int| 0 <= i < it_rest(&__it1).len() ==> (#[trigger] it_rest(&__it1)[i]).position.end_offset <= lim")],
+            ("prefix_intact", "applied_start <= blen(src), applied_start <= blen(sv(&result)), forall|k: int| 0 <= k <= applied_start ==> (#[trigger] is_cb(sv(&result), k) <==> is_cb(src, k))")],
             decreases="it_rest(&__it1).len()")},
-        hints=[dict(anchor="let mut result =", where="after_stmt", text="let ghost mut lim: int = blen(src) as int;"),
-               dict(anchor="let start = fix.position.start_offset;", where="before",
-                    text="proof { let ghost rest = it_rest(&__it1); assert forall|i: int| 0 <= i < rest.len() implies (#[trigger] rest[i]).position.end_offset <= fix.position.start_offset by { } }"),
-               dict(anchor="result = vf_concat3", where="after_stmt", text="proof { lim = start as int; }")],
         props=c22))
     def opt_chain(m):
         recv, how, arg, var, body, dflt = m.group("recv"), m.group("how"), m.group("arg"), m.group("v"), m.group("body"), m.group("d")
